@@ -809,4 +809,71 @@ Proof.
   split; [exact OK'|]. destruct F' as (-> & _). reflexivity.
 Qed.
 
+(* ---------- the cycle loop ---------- *)
+
+Definition Rept s (its : list (titem T)) (o : out T) : Prop :=
+  deeds (get_sched s 0%N) = map t_deed its /\ ts_ok s its /\
+  ts_wf (defs s) its /\ NoDup (0%N :: ts_ids its) /\ out_ok vis s o.
+
+Lemma root_pass_t (U : list (titem T)) f s o s' r :
+  recur_pass tk f s 0%N = (s', r) -> oof s' = false -> Rept s U o ->
+  exists U' o', tpass (tabs z0) tk (tyme s) U o = (U', o') /\
+    r = GReturn /\ deeds (get_sched s' 0%N) = map t_deed U' /\
+    ts_ok s' U' /\ out_ok vis s' o' /\ frame (ts_ids U) (0%N :: ts_ids U) s s'.
+Proof.
+  intros E O (Dq & G & W & ND & OK).
+  destruct f as [|f]; [rewrite recur_pass_O in E; inversion E; subst; discriminate|].
+  rewrite recur_pass_S in E. cbv zeta in E.
+  set (s1 := set_deeds s 0%N (deeds (get_sched s 0%N) ++ [DMark])) in *.
+  assert (F1 : frame [] [0%N] s s1) by (apply frame_deeds; [now left|apply frame_refl]).
+  assert (Dq1 : deeds (get_sched s1 0%N) = map t_deed U ++ DMark :: []).
+  { unfold s1. rewrite deeds_set_deeds_same. now rewrite Dq. }
+  assert (G1 : ts_ok s1 U).
+  { eapply ts_ok_frame; [exact F1| |exact G]. intros x Hx. split; [intros []|].
+    intros [Heq|[]]. subst x. apply NoDup_cons_iff in ND as [N0 _]. contradiction. }
+  destruct (pass_all f) as (L & _).
+  destruct (L 0%N tk U [] s1 o s' r E O Dq1 G1 W ND (ok_deeds _ _ _ _ _ OK) eq_refl)
+    as (U' & o' & Hp & -> & Dq' & G' & OK' & F').
+  exists U', o'. split; [exact Hp|]. split; [reflexivity|]. split; [exact Dq'|].
+  split; [exact G'|]. split; [exact OK'|].
+  eapply frame_trans; [eapply frame_weaken; [| |exact F1]|exact F']; intros x Hx; cbn [In] in *; tauto.
+Qed.
+
+Lemma cycle_spec_t : forall c f s its o limit stop,
+  oof (cycle_loop tk c f s limit stop) = false -> Rept s its o ->
+  exists t' o', tspec_cycles tk (tabs z0) c (tyme s) its o limit stop = Some (t', o') /\
+    tyme (cycle_loop tk c f s limit stop) = t' /\ out_ok vis (cycle_loop tk c f s limit stop) o'.
+Proof.
+  induction c as [|c IH]; intros f s its o limit stop O R; [discriminate|].
+  pose proof R as (Dq & G & W & ND & OK).
+  rewrite cycle_loop_S in *. destruct (recur_pass tk f s 0%N) as [s1 r] eqn:E. cbn [fst snd] in *.
+  pose proof (after_pass_oof _ _ _ _ _ _ _ O) as O1.
+  destruct (root_pass_t its f s o s1 r E O1 R) as (its' & o1 & Hp & -> & Dq1 & G1 & OK1 & F1).
+  assert (T1 : tyme s1 = tyme s) by (destruct F1 as (-> & _); reflexivity).
+  destruct (tpass_wf (tabs z0) (tyme s) (defs s) its tk o its' o1 Hp) as [Sub Wf].
+  assert (W1 : ts_wf (defs s1) its') by (destruct F1 as (_ & -> & _); auto).
+  assert (ND1 : NoDup (0%N :: ts_ids its')) by (eapply subl_NoDup; [apply subl_keep; exact Sub|exact ND]).
+  cbn [tspec_cycles]. rewrite Hp.
+  unfold after_pass in *. cbv zeta in *. rewrite T1 in *.
+  set (s2 := set_tyme s1 (tadd (tyme s) tk)) in *.
+  change (deeds (get_sched s2 0%N)) with (deeds (get_sched s1 0%N)) in *. rewrite Dq1 in *.
+  change (tyme s2) with (tadd (tyme s) tk) in *.
+  destruct its' as [|it its''].
+  - cbn [map] in *. rewrite oof_emit in O.
+    rewrite close_own_empty in * by (try exact O; rewrite sched_set_done; exact Dq1).
+    eexists _, _. split; [reflexivity|]. split; [reflexivity|].
+    apply (ok_emit_vis vis (set_deeds (set_done s2 0%N (Some true)) 0%N []) _ DoReturn 0%N vis0).
+    apply ok_deeds. apply ok_done_vis. apply ok_tyme. exact OK1.
+  - cbn [map] in O |- *.
+    destruct (limited limit && tleb stop (tadd (tyme s) tk)).
+    + rewrite oof_emit in O.
+      destruct (root_close_t f s2 (it :: its'') o1 O Dq1 (ts_ok_tyme _ _ _ G1) W1 ND1 (ok_tyme _ _ _ _ OK1)) as [OK' T'].
+      eexists _, _. split; [reflexivity|]. split; [exact T'|].
+      pose proof (ok_emit_vis vis (close_own tk f s2 0%N) _ DoReturn 0%N vis0 OK') as X.
+      rewrite T' in X. exact X.
+    + apply (IH f s2 (it :: its'') o1 limit stop); [exact O|].
+      split; [exact Dq1|]. split; [apply ts_ok_tyme; exact G1|].
+      split; [exact W1|split; [exact ND1|apply ok_tyme; exact OK1]].
+Qed.
+
 End TRun.
